@@ -11,6 +11,8 @@
 #include "Covariances/CovFactory.hpp"
 #include "Covariances/CovContext.hpp"
 #include "Covariances/ACovFunc.hpp"
+#include "Covariances/CovAniso.hpp"
+#include "Geometry/Rotation.hpp"
 #include "Matrix/MatrixSquareSymmetric.hpp"
 using namespace vh;
 
@@ -62,6 +64,48 @@ int main()
               double c = (dx == 0.) ? m->eval0(0, 0) : m->eval(p1, p2, 0, 0);
               if (minOrder < 0) { printf("s corr %s %s %s %s %s =>\n", (hasParam ? tname + "@" + dy(param) : tname).c_str(), dy(dx).c_str(), dy(hasRange > 0 ? range : 1.).c_str(), dy(scadef).c_str(), dy(c).c_str()); st.hit("closed_form_" + tname); }
             }
+            delete m;
+          }
+        }
+        // ---- anisotropic and rotated, unit sill: closed form along each ROTATED axis (the range of that axis applies),
+        //      the structure being declared in several orders (constructor arguments; ranges then angles; angles then ranges;
+        //      rotation object then ranges; isotropic + angles then one range changed).  The axes are computed here from the
+        //      angle (rotation about the third axis), never read back from the library.
+        if (ndim >= 2 && hasRange > 0 && minOrder < 0)
+        {
+          VectorDouble rg(ndim); for (int d = 0; d < ndim; d++) rg[d] = range * (0.25 + 0.25 * rng.range(0, 6));
+          if (rg[0] == rg[1]) rg[1] = rg[0] * 1.5;
+          double theta = 5. * (double)rng.range(-34, 34); if (std::fmod(theta, 90.) == 0.) theta += 25.;
+          VectorDouble ang(ndim, 0.); ang[0] = theta;
+          int order = (int)rng.range(0, 4);
+          Model* m = nullptr;
+          if (order == 0) m = Model::createFromParam(type, range, 1., param, rg, VectorDouble(), ang);
+          else
+          {
+            CovContext cc(1, ndim); CovAniso cova(type, cc); cova.setSill(0, 0, 1.); if (hasParam) cova.setParam(param);
+            if (order == 1) { cova.setRanges(rg); cova.setAnisoAngles(ang); }
+            else if (order == 2) { cova.setAnisoAngles(ang); cova.setRanges(rg); }
+            else if (order == 3) { Rotation rot(ndim); rot.setAngles(ang); cova.setAnisoRotation(rot); cova.setRanges(rg); }
+            else { cova.setRangeIsotropic(rg[0]); cova.setAnisoAngles(ang); for (int d = 1; d < ndim; d++) cova.setRange(d, rg[d]); }
+            m = new Model(cc); m->addCov(&cova);
+          }
+          if (m)
+          {
+            double scadef = CovFactory::getScaleFactor(type, param);
+            double ct = std::cos(theta * M_PI / 180.), sn = std::sin(theta * M_PI / 180.);
+            for (int axis = 0; axis < ndim; axis++)
+              for (int k = 0; k < 3; k++)
+              {
+                double dx = 0.125 * (double)rng.range(1, 40);
+                VectorDouble a(ndim, 0.), b(ndim, 0.);
+                for (int d = 0; d < ndim; d++) a[d] = 0.25 * (double)rng.range(-8, 8);
+                VectorDouble u(ndim, 0.); if (axis == 0) { u[0] = ct; u[1] = sn; } else if (axis == 1) { u[0] = -sn; u[1] = ct; } else u[2] = 1.;
+                for (int d = 0; d < ndim; d++) b[d] = a[d] + dx * u[d];
+                SpacePoint p1(a), p2(b);
+                double c = m->eval(p1, p2, 0, 0);
+                printf("s corr %s %s %s %s %s =>\n", (hasParam ? tname + "@" + dy(param) : tname).c_str(), dy(dx).c_str(), dy(rg[axis]).c_str(), dy(scadef).c_str(), dy(c).c_str());
+                st.hit("closed_form_rotated_axis_" + tname); st.hit("declaration_order_" + std::to_string(order));
+              }
             delete m;
           }
         }
